@@ -216,6 +216,7 @@ package nfs
 //@   requires [D4-fromscratch] noLocks() @C06
 //@   allocates $TXALLOC
 //@   modifies $TXMODS, sortperm
+//@   ensures [phase-same] cphase == old(cphase) @C01
 //@   ensures [aborted] result == nil ==> noLocks() && lastst == 3 && dirtyInv() && allocInv() && opInv(op) && curop == base(op) && listsValid(op.Atxn) @C09 @C06
 //@   ensures [locked] result != nil ==> len(result) == len(inums) && txOpen(op) && allClean() @C06 @C08
 //@   ensures [locked-all] result != nil ==> (forall k uint64 :: k < len(inums) ==> held[inums[k]] && result[k] == op.inodes[inums[k]] && result[k] != nil && result[k].Inum == inums[k]) @C06 @C08
